@@ -1,19 +1,30 @@
-"""Registry of checks: property id -> engine/package and manifest texts."""
+"""Registry of checks: property id -> engine/package and manifest texts.
+
+Each engine package contributes a fragment tools/registry.d/<package>.py that
+calls reg(...) once per property it serves; optional na(pid, reason) records a
+property deliberately not claimed.
+"""
+import glob
+import os
 
 CHECKS = {}
+NOT_APPLICABLE = {}
 
 
 def reg(pid, engine, package, level, technique, text, note, design_ref):
+    """pid: "C14"; engine: "seq" | "mc" | "reload"; package: cargo package =
+    binary name; level: "exploration" | "model_checking"; technique: a few
+    words naming the deciding method; text: what assurance the check gives and
+    why this level; note: what is assumed / trusted; design_ref: DESIGN.md
+    section."""
     CHECKS[pid] = dict(engine=engine, package=package, level=level, technique=technique,
                        text=text, note=note, design_ref=design_ref)
 
 
-reg("C17", "seq", "p-codes", "exploration",
-    "exhaustive enumeration of the complete input space (all 2^16 / 2^8 code values, all case patterns) against independent IANA tables",
-    "Complete enumeration: every 16-bit TYPE/CLASS/QTYPE/QCLASS value and every 8-bit opcode/RCODE value is rendered, parsed back and compared with an independent mnemonic table; exhaustive, so within the stated API the property is decided, not sampled.",
-    "Trusts the harness's IANA mnemonic tables and Rust's integer formatting.",
-    "DESIGN.md §7 C17")
+def na(pid, reason):
+    NOT_APPLICABLE[pid] = reason
 
-# Properties deliberately not claimed, with the reason (anything not
-# registered and not listed here is reported as "not built yet").
-NOT_APPLICABLE = {}
+
+_here = os.path.dirname(os.path.abspath(__file__))
+for _f in sorted(glob.glob(os.path.join(_here, "registry.d", "*.py"))):
+    exec(compile(open(_f).read(), _f, "exec"), {"reg": reg, "na": na})
